@@ -4,7 +4,7 @@
    (Props/C08).  PARTIAL: the parser is not modelled (tied by byte-exact correspondence on generated sheets). *)
 From Coq Require Import String.
 From Coq Require Import List Ascii Bool NArith.
-Require Import Model.Text Model.Ast Model.Scope Model.Ident Model.Fmt Model.Eval Proofs.EvalProofs Proofs.MediaProofs.
+Require Import Model.Text Model.Ast Model.Scope Model.Ident Model.Fmt Model.Eval Proofs.EvalProofs Proofs.MediaProofs Proofs.DeclProofs.
 Import ListNotations.
 
 (* a plain stylesheet: top-level rules (no nesting) with literal values *)
@@ -57,3 +57,28 @@ Proof.
   intros n parent sc H1 H2. destruct (rotation_normal_form n parent sc H1 H2) as (us & ms & E & _ & _ & G). eauto.
 Qed.
 Print Assumptions C01_media_kept.
+
+(* a declaration is printed as: indentation, name, colon, blank fill, the concatenation of its value tokens (trimmed),
+   `!important` if present, semicolon, line fill -- for every option vector's fills; nothing of the value is dropped, duplicated
+   or reordered.  (Values holding commas get the blank fill after each comma: C01_comma_spacing; url(..) directly followed by a
+   token gets one blank: the documented rewrites.) *)
+Theorem C01_declaration_verbatim :
+  forall fl name parsed imp,
+    forallb plain_tok parsed = true -> has_url (concat_str parsed) = false ->
+    prop_fmt fl name parsed imp =
+      f_tab fl ++ name ++ [":"%char] ++ f_ws fl ++ strip_ws (concat_str parsed) ++ (if imp then $" !important" else []) ++ [";"%char] ++ f_nl fl.
+Proof. exact prop_fmt_verbatim. Qed.
+Print Assumptions C01_declaration_verbatim.
+
+Theorem C01_comma_spacing :
+  forall ws parsed, forallb no_quote_tok parsed = true -> comma_ws ws None parsed = after_commas ws parsed.
+Proof. exact comma_ws_commas. Qed.
+Print Assumptions C01_comma_spacing.
+
+Example C01_declaration_example :
+  forallb plain_tok [$"1px"; $" "; $"solid"; $" "; $"#aabbcc"] = true /\
+  prop_fmt (MkFills $"
+" $"  " $" " $"
+") $"border" [$"1px"; $" "; $"solid"; $" "; $"#aabbcc"] true = $"  border: 1px solid #aabbcc !important;
+".
+Proof. split; vm_compute; reflexivity. Qed.
